@@ -2886,37 +2886,20 @@ def invalid_escape_sequence(source: str) -> str:
     Returns:
         str: Modified source code
     """
-    # Recognized esc sequences from python.org documentation, Jan 2023
-    # https://docs.python.org/3/reference/lexical_analysis.html#string-and-bytes-literals
-    valid_escape_sequences = (
-        r"\\",
-        r"\'",
-        r"\"",
-        r"\a",
-        r"\b",
-        r"\f",
-        r"\n",
-        r"\r",
-        r"\t",
-        r"\v",
-        r"\ooo",
-        r"\xhh",
-        r"\N",
-        r"\u",
-        r"\U",
-    )
-
     root = core.parse(source)
 
     for node in core.walk(root, ast.Constant(value=str)):
         code = core.get_code(node, source)
         # Normal string containing backslash but no valid escape sequences
-        if (
-            code
-            and code[0] in "'\""
-            and "\\" in code
-            and not any(sequence in code for sequence in valid_escape_sequences)
-        ):
+        if not (code and code[0] in "'\"" and "\\" in code):
+            continue
+        # The raw literal must denote the same string, i.e. the literal must not contain
+        # any valid escape sequence (\n, \\, \x41, \101, \N{...}, backslash-newline, ...)
+        try:
+            raw_value = ast.literal_eval(f"(r{code})")
+        except (SyntaxError, ValueError):
+            continue
+        if raw_value == node.value:
             yield node, "r" + code
 
 
